@@ -62,6 +62,21 @@ def spec_gram(stripes, lam):
     return G
 
 
+def spec_gram_diag(stripes):
+    """diagonal of the Gram matrix only (mass lumping needs nothing else)"""
+    cache = {}
+    out = []
+    for t in grid_hats(stripes):
+        v = F(1)
+        for d in range(len(stripes)):
+            key = (d, t[d])
+            if key not in cache:
+                cache[key] = gram1(t[d], t[d])
+            v *= cache[key]
+        out.append(v)
+    return out
+
+
 def spec_hat_nd(t, x):
     v = F(1)
     for d in range(len(t)):
@@ -317,8 +332,10 @@ class _RC:
         self.value = np.zeros(1)
 
 
-def make_op(case, dimension_wise):
-    """DensityEstimation object ready for direct calls of the matrix / rhs / solve methods"""
+def make_op(case, dimension_wise, cls=None):
+    """DensityEstimation object ready for direct calls of the matrix / rhs / solve methods.
+    Optional case keys (all default to the constructor defaults): debug, pre_scaled, data_form ('array' | 'tuple'),
+    explicit_grid (uniform path: pass a TrapezoidalGrid instead of grid=None)"""
     import numpy as np
     from sparseSpACE.GridOperation import DensityEstimation
     from sparseSpACE.Grid import GlobalTrapezoidalGrid
@@ -329,13 +346,23 @@ def make_op(case, dimension_wise):
     kw = dict(masslumping=bool(case.get('ml')), lambd=case.get('lam', 0.0), classes=classes,
               reuse_old_values=bool(case.get('reuse')), numeric_calculation=bool(case.get('numeric')),
               print_level=print_levels.ERROR, log_level=log_levels.ERROR)
+    if case.get('debug'):
+        kw['debug'] = True
+    if case.get('pre_scaled'):
+        kw['pre_scaled_data'] = True
+    if case.get('data_form') == 'tuple':
+        data = (data, classes if classes is not None else np.ones(len(data)))
+    cls = cls or DensityEstimation
     if dimension_wise:
         grid = GlobalTrapezoidalGrid(a=np.zeros(dim), b=np.ones(dim), boundary=False)
-        op = DensityEstimation(data, dim, grid=grid, **kw)
+        op = cls(data, dim, grid=grid, **kw)
         op.init_dimension_wise(grid, None, _RC(), [1] * dim, [6] * dim, np.zeros(dim), np.ones(dim))
         op.initialize_evaluation_dimension_wise(_RC())
     else:
-        op = DensityEstimation(data, dim, **kw)
+        if case.get('explicit_grid'):
+            from sparseSpACE.Grid import TrapezoidalGrid
+            kw['grid'] = TrapezoidalGrid(a=np.zeros(dim), b=np.ones(dim), boundary=False)
+        op = cls(data, dim, **kw)
         op.initialize()
     return op
 
